@@ -19,6 +19,7 @@ id are the same sub-tree up to flags — in Python, the same object.  It is nece
 -/
 import Smooth.Proofs.Heap
 import Smooth.Model.Instances
+import Smooth.Proofs.FlagIndepNorm
 
 namespace Smooth
 open Expr
@@ -137,5 +138,273 @@ example : atS intNum [("x", 3)] exClash [] = .ok (-6) ∧ evalG intNum [("x", 3)
   refine ⟨rfl, rfl, fun h => ?_⟩
   have this : (Except.ok (-6) : R Int) = .ok 6 := at_refines intNum [("x", 3)] h []
   exact absurd (Except.ok.inj this) (by decide)
+
+
+/-! ## Second memo mechanism: reduction flags never change the result
+
+C09 (second memo mechanism) — history independence: the reduction flags never change the result.
+
+Every Python node carries two memo flags that survive across calls and are shared by every expression
+that shares the object: `_is_fully_reduced` (`Flags.red`) and `_evaluation_failed` (`Flags.failed`).
+`_take_reduction_step` (`stepF`) consults them: a node flagged `red` is returned unchanged, a node
+flagged `failed` is not constant-folded again.  C09 demands that the result of a simplification
+depends only on the expression, never on flags left by earlier simplifications.
+
+* `FlagsSound N e` (Proofs/FlagSound) — what the flags promise, for every node `s` of `e` at any depth:
+  `s.red`    ⟹ no rule of the class of `s` applies at `s`, every operand of `s` is flagged `red`
+               (`Honest`, Proofs/Settled), and constant folding does not succeed at `s` (`NoFold`);
+  `s.failed` ⟹ `s` is variable-free and `evalG N [] s = .error .domain` (`ReallyFails`).
+  Trees without flags are sound, every step of the driver keeps a flagging sound, sub-objects of a
+  sound object are sound, fresh nodes around sound operands are sound: every flagging that any
+  sequence of earlier simplifications (without the budget warning) can leave behind is sound.
+* `pstep N` (Proofs/FlagIndep) — the *pure* rewrite step, a function on trees that consults no flag:
+  constant folding at the outermost foldable position, else the pure step inside the first operand
+  (left to right) that has one, else the first applicable reducer of the node's class.
+* `Expr.fresh` erases all flags (and ids): `e.fresh` is the tree `e` denotes.
+
+(a) one step from a sound flagging only changes flags or performs exactly `pstep` on the erased tree;
+(b) hence a run visits, as trees, the successive `pstep`-iterates of the erased start; (c) with
+termination (C11) `_fully_reduce` returns the same tree for `e` and for `e.fresh` — and for any two
+soundly flagged copies of one tree; (d) the same for `_normalize`.  The budget warning (fallback) is
+excluded by hypothesis: the fallback flags an unreduced root, which is not sound.
+The proof uses of `failed` only that evaluation does not succeed.
+Everything is generic in the number record `N` (reals, exact rationals, doubles).
+-/
+open Expr
+variable {α : Type}
+
+/-! ### every reachable flagging is sound -/
+
+/-- expressions as the constructors build them (no flag set) are soundly flagged -/
+theorem fresh_flags_sound (N : Num α) (e : Expr α) : FlagsSound N e.fresh :=
+  flagsSound_fresh N e
+
+/-- one call of `_take_reduction_step` keeps the flagging sound (whatever it does: return a flagged
+node, fold, mark `_evaluation_failed`, step inside an operand, apply a rule, flag) -/
+theorem step_keeps_flags_sound (N : Num α) (e : Expr α) (hs : FlagsSound N e) :
+    FlagsSound N (stepF N e).1 :=
+  (stepE_sim N hs).1
+
+/-- `_fully_reduce` that ends without the budget warning leaves a sound flagging … -/
+theorem fullyReduce_keeps_flags_sound (N : Num α) (bound : Nat) (e : Expr α) (hs : FlagsSound N e)
+    (hw : (fullyReduceWith N bound e).warned = false) :
+    FlagsSound N (fullyReduceWith N bound e).expr :=
+  (fi_fullyReduceLoop_reach N bound e 0 [] hs).2 hw
+
+/-- … in every sub-object (which other expressions may share) … -/
+theorem sub_object_flags_sound (N : Num α) {e s : Expr α} (hs : FlagsSound N e) (h : Sub s e) :
+    FlagsSound N s :=
+  hs.sub h
+
+/-- … and a new node built by a constructor (no flag set) around soundly flagged operands is soundly
+flagged -/
+theorem new_node_flags_sound (N : Num α) {e : Expr α} (hf : e.flags = {})
+    (hc : ∀ c ∈ children e, FlagsSound N c) : FlagsSound N e :=
+  (flagsSound_of_default N hf).mpr hc
+
+/-! ### (a) one step: only flags change, or exactly the pure step is performed -/
+
+/-- **C09 (one step).**  From a sound flagging, one call of `_take_reduction_step` on an unflagged
+root either leaves the tree unchanged (only flags were set) or rewrites the tree by exactly the pure
+step `pstep`, which does not know about flags. -/
+theorem step_flag_only_or_pure_step (N : Num α) (e : Expr α) (hs : FlagsSound N e)
+    (hr : e.isRed = false) :
+    (stepF N e).1.fresh = e.fresh ∨ pstep N e.fresh = some (stepF N e).1.fresh :=
+  (stepF_sim N e hs hr).2
+
+/-- a node flagged `_is_fully_reduced` in a sound flagging is a normal form of the pure step: skipping
+it skips nothing -/
+theorem flagged_is_pure_normal_form (N : Num α) (e : Expr α) (hs : FlagsSound N e)
+    (hr : e.isRed = true) : pstep N e.fresh = none :=
+  pstep_none_of_red N e hs hr
+
+/-! ### (b) runs: the same sequence of trees -/
+
+/-- **C09 (runs).**  Every form the loop visits is, as a tree, reached from the start tree by pure
+steps: the distinct trees a run goes through are the successive `pstep`-iterates of `e.fresh`,
+whatever the flags. -/
+theorem run_follows_pure_steps (N : Num α) (e : Expr α) (hs : FlagsSound N e) (k : Nat) :
+    PReach N e.fresh ((stepE N)^[k] e).fresh :=
+  (iterate_sim N hs k).2
+
+/-- the pure step is a function, so the trees visited by two runs from differently flagged copies of
+one tree lie on one and the same chain -/
+theorem two_runs_one_chain (N : Num α) (e₁ e₂ : Expr α) (h₁ : FlagsSound N e₁)
+    (h₂ : FlagsSound N e₂) (heq : e₁.fresh = e₂.fresh) (i j : Nat) :
+    PReach N ((stepE N)^[i] e₁).fresh ((stepE N)^[j] e₂).fresh ∨
+      PReach N ((stepE N)^[j] e₂).fresh ((stepE N)^[i] e₁).fresh := by
+  have p₁ := (iterate_sim N h₁ i).2
+  have p₂ := (iterate_sim N h₂ j).2
+  rw [heq] at p₁
+  exact p₁.linear p₂
+
+/-! ### (c) the result of `_fully_reduce` -/
+
+/-- **C09 (reduction flags).**  The fully reduced form does not depend on a sound pre-flagging: with
+budgets under which neither run logs the warning, `_fully_reduce` of `e` and of the flag-free copy
+`e.fresh` return the same tree (`Expr.fresh` erases the flags of the results). -/
+theorem fullyReduce_flag_independent (N : Num α) (e : Expr α) (hs : FlagsSound N e) (b b' : Nat)
+    (hw : (fullyReduceWith N b e).warned = false)
+    (hw' : (fullyReduceWith N b' e.fresh).warned = false) :
+    (fullyReduceWith N b e).expr.fresh = (fullyReduceWith N b' e.fresh).expr.fresh :=
+  fullyReduceWith_flag_independent N hs (flagsSound_fresh N e) (ff_fresh_fresh e).symm b b' hw hw'
+
+/-- such budgets exist, and every larger budget gives the same tree -/
+theorem fullyReduce_flag_independent_large (N : Num α) (e : Expr α) (hs : FlagsSound N e) :
+    ∃ K, ∀ b b', K ≤ b → K ≤ b' →
+      (fullyReduceWith N b e).warned = false ∧ (fullyReduceWith N b' e.fresh).warned = false ∧
+      (fullyReduceWith N b e).expr.fresh = (fullyReduceWith N b' e.fresh).expr.fresh :=
+  fullyReduceWith_flag_independent_large N hs (flagsSound_fresh N e) (ff_fresh_fresh e).symm
+
+/-- the library's own budget `REDUCTION_STEPS_BOUND = 1000` -/
+theorem fullyReduce_default_flag_independent (N : Num α) (e : Expr α) (hs : FlagsSound N e)
+    (hw : (fullyReduce N e).warned = false) (hw' : (fullyReduce N e.fresh).warned = false) :
+    (fullyReduce N e).expr.fresh = (fullyReduce N e.fresh).expr.fresh :=
+  fullyReduce_flag_independent N e hs _ _ hw hw'
+
+/-- two histories, one answer: two soundly flagged copies of one tree (flags left by any two
+different sequences of earlier simplifications of it, of its parts, or of expressions sharing parts
+with it) are fully reduced to the same tree -/
+theorem fullyReduce_any_two_histories (N : Num α) (e₁ e₂ : Expr α) (h₁ : FlagsSound N e₁)
+    (h₂ : FlagsSound N e₂) (heq : e₁.fresh = e₂.fresh) (b₁ b₂ : Nat)
+    (w₁ : (fullyReduceWith N b₁ e₁).warned = false)
+    (w₂ : (fullyReduceWith N b₂ e₂).warned = false) :
+    (fullyReduceWith N b₁ e₁).expr.fresh = (fullyReduceWith N b₂ e₂).expr.fresh :=
+  fullyReduceWith_flag_independent N h₁ h₂ heq b₁ b₂ w₁ w₂
+
+/-- what the answer is, without any mention of flags: the result of `_fully_reduce` (no warning) is,
+as a tree, THE normal form of `e.fresh` under the pure step — reached from it by pure steps, and not
+steppable; there is only one such tree (`PReach.normal_unique`). -/
+theorem fullyReduce_is_pure_normal_form (N : Num α) (e : Expr α) (hs : FlagsSound N e) (b : Nat)
+    (hw : (fullyReduceWith N b e).warned = false) :
+    PReach N e.fresh (fullyReduceWith N b e).expr.fresh ∧
+      pstep N (fullyReduceWith N b e).expr.fresh = none ∧
+      ∀ t, PReach N e.fresh t → pstep N t = none → t = (fullyReduceWith N b e).expr.fresh := by
+  obtain ⟨hreach, hsound⟩ := fi_fullyReduceLoop_reach N b e 0 [] hs
+  obtain ⟨n, hn, hred⟩ := fi_fullyReduceLoop_iterate N b e 0 [] hw
+  have hnf : pstep N (fullyReduceWith N b e).expr.fresh = none := by
+    refine pstep_none_of_red N _ (hsound hw) ?_
+    unfold fullyReduceWith
+    rw [hn]
+    exact hred
+  exact ⟨hreach, hnf, fun t ht hnt => ht.normal_unique hnt hreach hnf⟩
+
+/-- even when the budget runs out (warning, fallback) the returned tree is one of the pure-step
+iterates of `e.fresh` — only then it need not be the last one, and the root flag the fallback sets
+is not sound -/
+theorem fullyReduce_fallback_on_chain (N : Num α) (e : Expr α) (hs : FlagsSound N e) (b : Nat) :
+    PReach N e.fresh (fullyReduceWith N b e).expr.fresh :=
+  (fi_fullyReduceLoop_reach N b e 0 [] hs).1
+
+/-! ### (d) the result of `_normalize` -/
+
+/-- **C09 (reduction flags, `_normalize`).**  `_normalize()` = `_fully_reduce()` followed by
+`_normalize_fully_reduced()`, which calls the full `_normalize()` of every term of a sum or product —
+objects flagged by the run that produced them.  With fuel and budgets under which neither call logs
+the warning (`false`), `_normalize` of `e` and of the flag-free copy `e.fresh` return the same
+expression (literally: the normal form consists of fresh nodes only). -/
+theorem normalize_flag_independent (N : Num α) (e : Expr α) (hs : FlagsSound N e)
+    (b b' fuel fuel' : Nat) (r r' : Expr α)
+    (h : normalizeF N b fuel e = some (r, false))
+    (h' : normalizeF N b' fuel' e.fresh = some (r', false)) : r = r' :=
+  normalizeF_flag_independent N hs (flagsSound_fresh N e) (ff_fresh_fresh e).symm b b' fuel fuel'
+    r r' h h'
+
+/-- the library's own budget and the driver's fuel -/
+theorem normalize_default_flag_independent (N : Num α) (e : Expr α) (hs : FlagsSound N e)
+    (r r' : Expr α) (h : normalize N e = some (r, false))
+    (h' : normalize N e.fresh = some (r', false)) : r = r' :=
+  normalize_flag_independent N e hs _ _ _ _ r r' h h'
+
+/-- two histories, one normal form -/
+theorem normalize_any_two_histories (N : Num α) (e₁ e₂ : Expr α) (h₁ : FlagsSound N e₁)
+    (h₂ : FlagsSound N e₂) (heq : e₁.fresh = e₂.fresh) (b₁ b₂ fuel₁ fuel₂ : Nat) (r₁ r₂ : Expr α)
+    (n₁ : normalizeF N b₁ fuel₁ e₁ = some (r₁, false))
+    (n₂ : normalizeF N b₂ fuel₂ e₂ = some (r₂, false)) : r₁ = r₂ :=
+  normalizeF_flag_independent N h₁ h₂ heq b₁ b₂ fuel₁ fuel₂ r₁ r₂ n₁ n₂
+
+/-! ### Non-vacuity -/
+
+section Examples
+
+/-- flags as an earlier simplification leaves them: the object `-x` was fully reduced before (flagged
+at every node); it is now an operand of a new sum next to the new node `-(-x)`, whose operand is
+the same flagged object `-x` -/
+def exFlagged : Expr α :=
+  .add {} [.neg { red := true } (.var { red := true } "x"),
+           .neg {} (.neg { red := true } (.var { red := true } "x"))]
+
+/-- the hypothesis of all theorems above holds of it, for every `N` -/
+theorem exFlagged_sound (N : Num α) : FlagsSound N (exFlagged : Expr α) := by
+  simp [exFlagged, flagsSound_add, flagsSound_neg, flagsSound_var, children, NodeSound, Honest,
+    NoFold, isRed, flags, reducers, firstRule, RuleId.apply, ruleNegNeg, ruleNegSum, vars, varsAux]
+
+/-- the two runs differ (the flagged one takes 2 steps, the flag-free one 6), the trees agree:
+`-x + -(-x)` becomes `-x + x` -/
+example (N : Num α) :
+    (fullyReduceWith N 50 (exFlagged : Expr α)).steps = 2 ∧
+    (fullyReduceWith N 50 (exFlagged : Expr α).fresh).steps = 6 ∧
+    (fullyReduceWith N 50 (exFlagged : Expr α)).warned = false ∧
+    (fullyReduceWith N 50 (exFlagged : Expr α).fresh).warned = false ∧
+    (fullyReduceWith N 50 (exFlagged : Expr α)).expr.fresh
+      = mkAdd [mkNeg (mkVar "x"), mkVar "x"] := by
+  refine ⟨rfl, rfl, rfl, rfl, rfl⟩
+
+example (N : Num α) :
+    (fullyReduceWith N 50 (exFlagged : Expr α)).expr.fresh
+      = (fullyReduceWith N 50 (exFlagged : Expr α).fresh).expr.fresh :=
+  fullyReduce_flag_independent N _ (exFlagged_sound N) 50 50 rfl rfl
+
+/-- `_normalize`: both copies normalise, without warning, to `x - x` -/
+example (N : Num α) :
+    normalizeF N 50 10 (exFlagged : Expr α) = some (mkMinus (mkVar "x") (mkVar "x"), false) ∧
+    normalizeF N 50 10 (exFlagged : Expr α).fresh
+      = some (mkMinus (mkVar "x") (mkVar "x"), false) := by
+  constructor <;> rfl
+
+example (N : Num α) (r r' : Expr α) (h : normalizeF N 50 10 (exFlagged : Expr α) = some (r, false))
+    (h' : normalizeF N 70 20 (exFlagged : Expr α).fresh = some (r', false)) : r = r' :=
+  normalize_flag_independent N _ (exFlagged_sound N) 50 70 10 20 r r' h h'
+
+/-- (a), both alternatives: the first step from `exFlagged` performs the pure step (`-(-x) ⟶ x`
+inside the second operand — the flagged first operand is skipped), the first step from the flag-free
+copy only sets a flag -/
+example (N : Num α) :
+    pstep N (exFlagged : Expr α).fresh = some (stepF N (exFlagged : Expr α)).1.fresh ∧
+    (stepF N (exFlagged : Expr α).fresh).1.fresh = (exFlagged : Expr α).fresh := by
+  constructor <;> rfl
+
+/-- the flags matter to `stepF` and the hypothesis `FlagsSound` is necessary: a dishonest
+`_is_fully_reduced` flag on `-(-x)` changes the result -/
+example (N : Num α) :
+    let bad : Expr α := .neg { red := true } (.neg {} (.var {} "x"))
+    ¬ FlagsSound N bad ∧
+    (fullyReduceWith N 50 bad).expr.fresh = mkNeg (mkNeg (mkVar "x")) ∧
+    (fullyReduceWith N 50 bad.fresh).expr.fresh = mkVar "x" := by
+  refine ⟨fun h => ?_, rfl, rfl⟩
+  have := ((h _ (Sub.refl _)).1 rfl).1.1
+  simp [reducers, firstRule, RuleId.apply, ruleNegNeg] at this
+
+/-- the `_evaluation_failed` flag, over the exact rationals: `1/0` was found to fail before; the
+flagged run does not evaluate it again, the flag-free run does (and sets the flag), the trees agree:
+`x * (1/0)` stays `x * (1/0)` -/
+def exFailed : Expr QE :=
+  .mul {} [.var { red := true } "x", .recip { failed := true } (.const { red := true } ⟨0, true⟩)]
+
+theorem exFailed_sound : FlagsSound qeNum exFailed := by
+  have h : evalG qeNum [] (.recip { failed := true } (.const { red := true } ⟨0, true⟩))
+      = .error .domain := by
+    rfl
+  simp [exFailed, flagsSound_mul, flagsSound_recip, flagsSound_var, flagsSound_const, children,
+    NodeSound, Honest, NoFold, ReallyFails, isRed, flags, reducers, firstRule, vars, varsAux,
+    isConstNode, h]
+
+example :
+    (fullyReduceWith qeNum 50 exFailed).expr.fresh
+      = (fullyReduceWith qeNum 50 exFailed.fresh).expr.fresh :=
+  fullyReduce_flag_independent qeNum _ exFailed_sound 50 50 rfl rfl
+
+end Examples
+
 
 end Smooth
